@@ -18,7 +18,7 @@ func init() {
 	register("C14", func(tier string) CheckSpec {
 		depth, budget := 2, 200*time.Second
 		if tier == "thorough" {
-			depth, budget = 3, 30*time.Minute
+			depth, budget = 3, 20*time.Minute
 		}
 		return CheckSpec{Level: "model_checking", Rule: searchRule + "; the alphabet is the whole message matrix (message type x sender x consumer x variant), so every message is judged in every reached state", Assumptions: append([]string{
 			"the authenticated sender of a message is the signer the app's signing context derives from it (GetMsgV1Signers); signature verification itself is not exercised",
